@@ -17,7 +17,7 @@ from mc import oracle as O
 PROPERTY = "C06"
 
 JSON_TYPES = ["int", "float", "str", "bool", "dict", "list", "Optional[int]", "Optional[float]", "Optional[str]", "Optional[bool]", "Optional[dict]", "Optional[list]",
-              "Literal['a', 'b']", "Literal['a', 'b', 'c']", "Literal['b', 'a']", "Literal['x-y', 'p q']", "Literal['v1.5', 'a+b']"]
+              "Literal['a', 'b']", "Literal['a', 'b', 'c']", "Literal['b', 'a']", "Literal['x-y', 'p q']", "Literal['v1.5', 'a+b']", "Literal['a']", "Optional[Literal['a', 'b']]"]
 
 
 def json_defaults(t):
